@@ -400,6 +400,14 @@ class StmtMixin:
                 kv = VStr(k) if isinstance(k, str) else (VInt(k) if isinstance(k, int) else k)
                 st.map_set(m, kv.t, x)
             return m
+        if isinstance(v, VLoc) and isinstance(T, ty.Lst) and st.loc(v).kind == "list":
+            l = st.new_obj(T.cls, T)
+            es = T.elem.comps[0]
+            seq = z3.Empty(z3.SeqSort(es))
+            for x in st.loc(v).data:
+                seq = z3.Concat(seq, z3.Unit(flatten(x, T.elem)[0]))
+            st.lst_set(l, seq)
+            return l
         return v
 
     def store_name(self, name, v, st):
@@ -422,7 +430,7 @@ class StmtMixin:
         f.vars[name] = v
 
     def check_global_write(self, module, name, st):
-        pass
+        self.check_guarded_global(module, name, st, "written")
 
     def assign_target(self, tgt, v, st):
         if isinstance(tgt, ast.Name):
